@@ -151,7 +151,12 @@ func Packet(t *sim.Tape, cfg Cfg) *ref.AP {
 		}
 		typ = order[t.Pick(ws...)]
 	}
-	return g.ofType(typ, &cfg)
+	a := g.ofType(typ, &cfg)
+	if t.Bool(1, 10) {
+		// land the remaining length or the property length exactly on a width boundary
+		a = Tune(t, a, !cfg.NoHuge && cfg.Thorough)
+	}
+	return a
 }
 
 func (g *G) ofType(typ byte, cfg *Cfg) *ref.AP {
@@ -409,4 +414,66 @@ func Bulk(t *sim.Tape, thorough bool) *ref.AP {
 		a.Props = ups(n)
 		return a
 	}
+}
+
+// Tune pads a packet so that its remaining length or its property length
+// lands exactly on a width boundary of the variable byte integer (127/128,
+// 16383/16384, and for PUBLISH payloads 2097151/2097152). It returns the
+// packet unchanged when the target cannot be reached.
+func Tune(t *sim.Tape, a *ref.AP, allowHuge bool) *ref.AP {
+	targets := []int{127, 128, 16383, 16384}
+	if allowHuge && a.Type == ref.Publish {
+		targets = append(targets, 2097151, 2097152)
+	}
+	target := targets[t.Int(len(targets))]
+	onProps := t.Bool(1, 2)
+	frame, fm := ref.Encode(a)
+	cur := -1
+	for _, f := range fm {
+		if onProps && f.Kind == "varint" && f.Name == "PropertyLength" {
+			v, _, _ := ref.ParseVarint(frame[f.Start:f.End])
+			cur = int(v)
+		}
+		if !onProps && f.Kind == "rl" {
+			v, _, _ := ref.ParseVarint(frame[f.Start:f.End])
+			cur = int(v)
+		}
+	}
+	if cur < 0 || cur > target {
+		return a
+	}
+	need := target - cur
+	b := a.Clone()
+	g := &G{T: t}
+	if !onProps && a.Type == ref.Publish {
+		b.Payload = append(append([]byte{}, b.Payload...), g.Bin(need)...)
+		return b
+	}
+	// add one user property "k" = value; it costs 1+2+1+2+len(value) bytes (and
+	// may widen the property length field, which the re-check below catches)
+	switch a.Type {
+	case ref.PingReq, ref.PingResp, ref.Reserved0:
+		return a
+	}
+	if (a.Type == ref.PubAck || a.Type == ref.PubRec || a.Type == ref.PubRel || a.Type == ref.PubComp || a.Type == ref.Disconnect || a.Type == ref.Auth) && len(a.Props) == 0 {
+		return a // the short forms carry no property section; leave them alone
+	}
+	for delta := 0; delta < 4; delta++ {
+		vlen := need - 6 - delta
+		if vlen < 0 || vlen > 65535 {
+			continue
+		}
+		c := a.Clone()
+		c.Props = append(c.Props, ref.Prop{ID: 0x26, K: []byte("k"), V: g.Str(vlen)})
+		f2, fm2 := ref.Encode(c)
+		for _, f := range fm2 {
+			if (onProps && f.Kind == "varint" && f.Name == "PropertyLength") || (!onProps && f.Kind == "rl") {
+				if v, _, _ := ref.ParseVarint(f2[f.Start:f.End]); int(v) == target {
+					return c
+				}
+				break
+			}
+		}
+	}
+	return a
 }
